@@ -11,13 +11,6 @@ set_option linter.constructorNameAsVariable false
 namespace ChemModel.Formula
 open ChemModel.Gen
 
-/-- text that carries no amount: whitespace, state symbols, prime/star marks -/
-inductive Silent : List Char → Prop
-  | nil : Silent []
-  | ws (c : Char) (r : List Char) : isWs c = true → Silent r → Silent (c :: r)
-  | state (st : St) (r : List Char) : Silent r → Silent (st.text ++ r)
-  | mark (c : Char) (r : List Char) : isMark c = true → Silent r → Silent (c :: r)
-
 theorem Silent.append {a b : List Char} (ha : Silent a) (hb : Silent b) : Silent (a ++ b) := by
   induction ha with
   | nil => simpa using hb
@@ -34,25 +27,6 @@ theorem silent_marks {w : List Char} (h : ∀ c ∈ w, isMark c = true) : Silent
   induction w with
   | nil => exact Silent.nil
   | cons c r ih => exact Silent.mark c r (h c (by simp)) (ih (fun d hd => h d (by simp [hd])))
-
-/-- what may be written after an element symbol, a closing bracket or a cage body: optional whitespace, an optional
-    count whose value is `n` (1 when omitted), then whitespace / a state symbol / marks -/
-def TailOf (tl : List Char) (n : Rat) : Prop :=
-  ∃ (w : List Char) (cnt : Cnt) (rest : List Char),
-    (∀ c ∈ w, isWs c = true) ∧ cnt.wf = true ∧ n = cnt.val ∧ Silent rest ∧ tl = w ++ (cnt.render ++ rest)
-
-/-- string-level denotation: `Den u occ` — the text `u` is a sequence of terms (elements, bracket groups, cages, with
-    whitespace anywhere between tokens) and `occ` lists its element occurrences in reading order, each with the product of the
-    counts of the groups / cages enclosing it -/
-inductive Den : List Char → Comp → Prop
-  | nil : Den [] []
-  | ws (c : Char) (r : List Char) (occ : Comp) : isWs c = true → Den r occ → Den (c :: r) occ
-  | elem (z : Nat) (tl : List Char) (n : Rat) (r : List Char) (occ : Comp) :
-      1 ≤ z → z ≤ 118 → TailOf tl n → Den r occ → Den (symChars z ++ (tl ++ r)) ((z, n) :: occ)
-  | group (b : Br) (u : List Char) (occu : Comp) (tl : List Char) (n : Rat) (r : List Char) (occ : Comp) :
-      Den u occu → occu ≠ [] → TailOf tl n → Den r occ → Den (b.op :: (u ++ b.cl :: (tl ++ r))) (scale n occu ++ occ)
-  | cage (u : List Char) (occu : Comp) (tl : List Char) (n : Rat) (r : List Char) (occ : Comp) :
-      Den u occu → occu ≠ [] → TailOf tl n → Den r occ → Den ('@' :: (u ++ (tl ++ r))) (scale n occu ++ occ)
 
 theorem Den.append {a b : List Char} {oa ob : Comp} (ha : Den a oa) (hb : Den b ob) : Den (a ++ b) (oa ++ ob) := by
   induction ha with
@@ -97,9 +71,6 @@ theorem Den.keys_pos {u : List Char} {occ : Comp} (h : Den u occ) : ∀ k ∈ Co
     · exact ih2 k e
 
 /-! ### same totals, same keys -/
-
-/-- `c` (a dict or pair list returned by the parser) and `occ` (occurrences) have the same per-key totals and key sets -/
-def Equiv (c occ : Comp) : Prop := ∀ k, total c k = total occ k ∧ (k ∈ Comp.keys c ↔ k ∈ Comp.keys occ)
 
 theorem Equiv.refl (c : Comp) : Equiv c c := fun _ => ⟨rfl, Iff.rfl⟩
 
@@ -364,20 +335,6 @@ namespace ChemModel.Formula
 open ChemModel.Gen
 
 /-! ### value soundness of the whole `formula_to_composition` -/
-
-/-- how one hydrate part is read: leading ASCII digits give the multiplier `m` (1 when absent; the first part never has any),
-    the rest is the electron `e` (no occurrences) or a text with denotation `occ` -/
-def PartReads (first : Bool) (piece : List Char) (m : Rat) (occ : Comp) : Prop :=
-  ∃ ds text, piece = ds ++ text ∧ (∀ c ∈ ds, c.isDigit = true) ∧ (first = true → ds = []) ∧
-    m = (if ds = [] then 1 else ((digitsVal ds : Nat) : Rat)) ∧ ((text = ['e'] ∧ occ = []) ∨ Den text occ)
-
-inductive PartsRead : Bool → List (List Char) → List (Rat × Comp) → Prop
-  | nil (b : Bool) : PartsRead b [] []
-  | cons (b : Bool) (p : List Char) (ps : List (List Char)) (m : Rat) (occ : Comp) (rd : List (Rat × Comp)) :
-      PartReads b p m occ → PartsRead false ps rd → PartsRead b (p :: ps) ((m, occ) :: rd)
-
-/-- all element occurrences of the parts, each multiplied by its part's multiplier -/
-def readOcc (rd : List (Rat × Comp)) : Comp := rd.flatMap (fun p => scale p.1 p.2)
 
 theorem readOcc_cons (m : Rat) (occ : Comp) (rd : List (Rat × Comp)) : readOcc ((m, occ) :: rd) = scale m occ ++ readOcc rd := by
   simp [readOcc]
